@@ -402,7 +402,7 @@ def run(F, rep):
 
     # ------------------------------------------------------------------ O1: owners of entities that may have none
     import nullres
-    n_o = nullres.run(F, rep, 'C09.O1', kinds=('owningComponent', 'owningModel', 'parent'))
+    n_o = nullres.run(F, rep, 'C09.O1', kinds=('owningComponent', 'owningModel', 'parent', 'weak.lock'))
     if n_o < 40:
         raise AnalysisBroken('C09.O1: only %d owner lookups with a dereference found (60+ confirmed)' % n_o)
 
